@@ -97,11 +97,14 @@ type scenario struct {
 	// PanicEvery > 0 (tripwire only): every k-th insertion into the wrapped structure panics;
 	// the caller recovers it; the wrapper must stay usable for everybody else
 	PanicEvery int `json:"panicEvery"`
+	// Nest > 0: the wrapper is wrapped Nest more times (a ConcurrentQueue/Stack is itself a Queue/Stack);
+	// goroutine i works through handle i % (Nest+1), so inner and outer handles are used at once
+	Nest int `json:"nest"`
 }
 
 func (s scenario) String() string {
 	var sb strings.Builder
-	fmt.Fprintf(&sb, "stack=%v wrapped=%s yields=%d prefill=%d panicEvery=%d", s.Stack, s.Wrapped, s.Yields, s.Prefill, s.PanicEvery)
+	fmt.Fprintf(&sb, "stack=%v wrapped=%s yields=%d prefill=%d panicEvery=%d nest=%d", s.Stack, s.Wrapped, s.Yields, s.Prefill, s.PanicEvery, s.Nest)
 	for i, th := range s.Threads {
 		fmt.Fprintf(&sb, " g%d=", i)
 		for _, k := range th {
@@ -145,6 +148,7 @@ func genScenario(t *rapid.T) scenario {
 	if s.Wrapped == "tripwire" && rapid.IntRange(0, 3).Draw(t, "panics") == 0 {
 		s.PanicEvery = rapid.IntRange(2, 7).Draw(t, "panicEvery")
 	}
+	s.Nest = rapid.SampledFrom([]int{0, 0, 0, 1, 2}).Draw(t, "nest")
 	for i := 0; i < p+k; i++ {
 		n := rapid.IntRange(1, maxOps).Draw(t, "n")
 		th := make([]int, n)
@@ -180,6 +184,8 @@ func runScenarioInner(s scenario) result {
 	var take func() (int, error)
 	var takeAlt func() (int, error)
 	var tw *tripwire
+	var hPut, hPutAlt []func(int) error
+	var hTake, hTakeAlt []func() (int, error)
 	if s.Stack {
 		var inner fpgo.Stack[int]
 		if s.Wrapped == "tripwire" {
@@ -191,6 +197,11 @@ func runScenarioInner(s scenario) result {
 		cs := fpgo.NewConcurrentStack[int](inner)
 		put, putAlt = cs.Push, cs.Push
 		take, takeAlt = cs.Pop, cs.Pop
+		hPut, hPutAlt, hTake, hTakeAlt = append(hPut, put), append(hPutAlt, putAlt), append(hTake, take), append(hTakeAlt, takeAlt)
+		for n := 0; n < s.Nest; n++ {
+			cs = fpgo.NewConcurrentStack[int](cs)
+			hPut, hPutAlt, hTake, hTakeAlt = append(hPut, cs.Push), append(hPutAlt, cs.Push), append(hTake, cs.Pop), append(hTakeAlt, cs.Pop)
+		}
 	} else {
 		var inner fpgo.Queue[int]
 		if s.Wrapped == "tripwire" {
@@ -202,6 +213,11 @@ func runScenarioInner(s scenario) result {
 		cq := fpgo.NewConcurrentQueue[int](inner)
 		put, putAlt = cq.Put, cq.Offer
 		take, takeAlt = cq.Take, cq.Poll
+		hPut, hPutAlt, hTake, hTakeAlt = append(hPut, put), append(hPutAlt, putAlt), append(hTake, take), append(hTakeAlt, takeAlt)
+		for n := 0; n < s.Nest; n++ {
+			cq = fpgo.NewConcurrentQueue[int](cq)
+			hPut, hPutAlt, hTake, hTakeAlt = append(hPut, cq.Put), append(hPutAlt, cq.Offer), append(hTake, cq.Take), append(hTakeAlt, cq.Poll)
+		}
 	}
 	// safePut runs an insertion; a deliberate tripwire panic is recovered and reported as "not inserted"
 	safePut := func(f func(int) error, v int) (inserted bool, err error) {
@@ -247,6 +263,7 @@ func runScenarioInner(s scenario) result {
 		go func(i int) {
 			defer wg.Done()
 			<-start
+			put, putAlt, take, takeAlt := hPut[i%len(hPut)], hPutAlt[i%len(hPut)], hTake[i%len(hPut)], hTakeAlt[i%len(hPut)]
 			p, stack := vlib.Try(func() {
 				for j, k := range s.Threads[i] {
 					rec := opRec{client: i, kind: k}
@@ -598,6 +615,7 @@ func TestScenarios(t *testing.T) {
 			st.Class("porcupine-checked")
 		}
 		st.Class("wrapped=" + s.Wrapped)
+		st.Class(fmt.Sprintf("nest=%d", s.Nest))
 		report(t, s, res, func() { t.Skip("known") })
 	})
 }
